@@ -24,11 +24,11 @@ ASSUMPTIONS = [
     "outward unit normals: xmin (-1,0), xmax (+1,0), ymin (0,-1), ymax (0,+1); in 1-D xmin -1, xmax +1",
     "boundary weight is a scalar (the statement defines a weighted mean per facet)",
     "d >= 3 borders are not implemented by jinns (NotImplementedError) and are not generated",
-    "separable networks are related to pointwise ones in C11; C04 uses pointwise networks",
+    "separable networks: boundary terms on the grid of the border batch against the closed form of an analytic separable field (same builder as C11, judged here against the closed form alone)",
 ]
 TIMEOUT = {"quick": 1500, "thorough": 5400}
-MIN_COUNTERS = {"quick": {"boundary_terms_compared": 120, "neumann_cases": 30, "dirichlet_cases": 30},
-                "thorough": {"boundary_terms_compared": 1500, "neumann_cases": 400, "dirichlet_cases": 400}}
+MIN_COUNTERS = {"quick": {"boundary_terms_compared": 120, "neumann_cases": 30, "dirichlet_cases": 30, "spinn_separable_terms_vs_closed_form": 40},
+                "thorough": {"boundary_terms_compared": 1500, "neumann_cases": 400, "dirichlet_cases": 400, "spinn_separable_terms_vs_closed_form": 500}}
 
 BOXES = [([0.0, 0.0], [1.0, 1.0]), ([-2.0, 0.5], [-0.5, 3.0]), ([1.0, -3.0], [2.5, -1.0])]
 FACETS = ["xmin", "xmax", "ymin", "ymax"]
@@ -72,6 +72,13 @@ def gen_cases(tier, seed):
                           fshape=fshape, nt=nt, nb=int(rng.integers(1, 5)), src=src, cartesian=cart,
                           box=int(rng.integers(len(BOXES))), w=float(np.round(rng.uniform(0.3, 3.0), 3)),
                           int_dim=bool(rng.integers(2)), seed=seed * 100000 + k, cost=1.0, x64=bool(k % 7 != 3)))
+    # separable networks: the same boundary terms on a SPINN (grid of the border batch), against the closed form of
+    # an analytic separable field (term builder shared with C11)
+    for k in range(24 if q else 300):
+        term = ["dirichlet_statio", "neumann_statio", "dirichlet_nonstatio", "neumann_nonstatio"][k % 4]
+        cases.append(dict(kind="spinn_term", term=term, d=1 + (k // 4) % 2, r=int(rng.integers(1, 4)),
+                          m=int(rng.integers(1, 3)), B=int(rng.integers(2, 4)), judge="closed",
+                          seed=seed * 1000 + k, cost=3.0, x64=True))
     return cases
 
 
@@ -131,6 +138,25 @@ def run_case(case, rec):
     import jinns
     from jinns.parameters import Params
 
+    if case["kind"] == "spinn_term":
+        from . import c11
+        from ..core import Rec
+
+        sub = Rec(case)
+        try:
+            c11.run_case(dict(case, kind="term"), sub)
+        finally:
+            for k_, v_ in sub.counters.items():
+                if k_ != "violations_raw":
+                    rec.count("spinn_" + k_, v_)
+            for key in sub.keys:
+                rec.nontrivial(key)
+            rec.sample = rec.sample or sub.sample
+            for u_ in sub.unsupported:
+                rec.unsupp(u_)
+            for v_ in sub.violations:
+                rec.violation("spinn/" + v_["sig"], v_["what"], **(v_["witness"] or {}))
+        return
     d, kind, n_out = case["d"], case["kind"], case["n_out"]
     D = d + (1 if kind == "nonstatio" else 0)
     mins, maxs = BOXES[case["box"]]
